@@ -129,8 +129,10 @@ def write_new_batch(buffer: IO[bytes], new_batch: NewRecordBatch) -> None:
     base_offset = first_record.offset
     last_offset_delta = i32(last_record.offset - base_offset)
     base_timestamp = i64(_to_millis(first_record.timestamp))
+    # Compare instants, not datetime objects: aware datetimes that share a tzinfo are
+    # compared by wall-clock fields, which ignores `fold` in a repeated DST hour.
     max_timestamp = i64(
-        _to_millis(max(record.timestamp for record in new_batch.records))
+        max(_to_millis(record.timestamp) for record in new_batch.records)
     )
 
     with io.BytesIO() as crc_buffer:
